@@ -365,7 +365,34 @@ OPS_ORACLE = {
     "null": "True",
     "is_instance": "isinstance(X, classes)",
 }
+def _skeleton(expr):
+    """Shape of an expression with operator kinds, operand order and `.keys()` calls abstracted
+    away: two expressions with the same skeleton differ only in such details."""
+    def rec(n):
+        if isinstance(n, ast.Call) and isinstance(n.func, ast.Attribute) and n.func.attr == "keys" and not n.args:
+            return rec(n.func.value)
+        if isinstance(n, ast.UnaryOp) and isinstance(n.op, ast.Not):
+            return rec(n.operand)
+        if isinstance(n, ast.Compare):
+            return ("cmp", tuple(sorted([repr(rec(n.left))] + [repr(rec(c)) for c in n.comparators])))
+        if isinstance(n, ast.BinOp):
+            return ("bin", tuple(sorted([repr(rec(n.left)), repr(rec(n.right))])))
+        if isinstance(n, ast.Call):
+            return ("call", ast.unparse(n.func), tuple(repr(rec(a)) for a in n.args))
+        if isinstance(n, ast.GeneratorExp):
+            return ("gen", repr(rec(n.elt)), tuple(repr(rec(g.iter)) for g in n.generators))
+        if isinstance(n, ast.Name):
+            return ("name", n.id)
+        if isinstance(n, ast.Constant):
+            return ("const", repr(n.value))
+        return ("other", type(n).__name__, tuple(repr(rec(c)) for c in ast.iter_child_nodes(n)))
+    return rec(expr)
+
+
 OPS_EQUIV = {
+    "allowed_keys": {"set(X.keys()) <= set(keys)", "set(X.keys()).issubset(set(keys))", "set(X.keys()).issubset(keys)"},
+    "required_keys": {"set(keys) <= set(X.keys())", "set(X.keys()) >= set(keys)", "set(keys).issubset(set(X.keys()))", "set(keys).issubset(X.keys())"},
+    "truthy": {"not not X"},
     "keys_contain_one_of": {"sum((_v0 in X.keys() for _v0 in keys)) == 1"},
     "keys_contain_at_least_one_of": {"sum((_v0 in X.keys() for _v0 in keys)) >= 1", "any((_v0 in X.keys() for _v0 in keys))"},
     "keys_contain_at_most_one_of": {"sum((_v0 in X.keys() for _v0 in keys)) <= 1"},
@@ -402,9 +429,16 @@ def rule_ops(ctx):
         got = canon(rv2, {first: "X"} if first else None)
         inst["normal_form"] = got
         ok_forms = {exp} | OPS_EQUIV.get(name, set())
+        same_shape = False
+        try:
+            exp_ast = ast.parse(exp, mode="eval").body
+            got_ast = ast.parse(got, mode="eval").body
+            same_shape = _skeleton(exp_ast) == _skeleton(got_ast)
+        except SyntaxError:
+            pass
         if got in ok_forms:
             r.ok()
-        elif in_vocabulary(rv2, extra_calls=sibs):
+        elif in_vocabulary(rv2, extra_calls=sibs) and same_shape:
             r.fail(Finding("R-OPS", f"R-OPS|callables.{name}", where,
                            f"callables.{name} computes `{got}` (item = X); its documented meaning is `{exp}`", [f"{f.qualname} @ {where}: return {norm(rv)}"]))
         else:
@@ -427,7 +461,11 @@ def rule_ops(ctx):
         else:
             rets = [n for n in ast.walk(f.node) if isinstance(n, ast.Return)]
             consts = [n.value.value for n in rets if isinstance(n.value, ast.Constant)]
-            if len(consts) == len(rets) and all(isinstance(c, bool) for c in consts):
+            cmps = [n for n in ast.walk(f.node) if isinstance(n, ast.Compare) and any(isinstance(x, ast.Subscript) and isinstance(x.value, ast.Name) and x.value.id == first for x in [n.left] + n.comparators)]
+            if len(cmps) == 1 and len(cmps[0].ops) == 1 and not isinstance(cmps[0].ops[0], ast.NotEq) and isinstance(cmps[0]._parent, ast.If) and any(isinstance(x, ast.Return) and isinstance(x.value, ast.Constant) and x.value.value is False for x in cmps[0]._parent.body):
+                r.fail(Finding("R-OPS", "R-OPS|callables.items_contain|compare", f"{f.file}:{cmps[0].lineno}",
+                               f"items_contain rejects an item when `{norm(cmps[0])}`; its documented meaning is: every given item is present with an equal value (reject when item[k] != v)", []))
+            elif len(consts) == len(rets) and all(isinstance(c, bool) for c in consts):
                 inst["verdict"] = "undecided (loop form not recognised; all returns are boolean constants)"
                 r.undecided.append(inst)
             else:
@@ -565,10 +603,23 @@ def rule_chain(ctx):
     inst = {"check": "every child filters the same data object"}
     r.instances.append(inst)
     calls = [n for n in ast.walk(bf.node) if isinstance(n, ast.Call) and isinstance(n.func, ast.Attribute) and n.func.attr == "_filter" and n.args]
-    gens = [n for n in ast.walk(bf.node) if isinstance(n, ast.GeneratorExp)]
-    ok = bool(calls) and all(isinstance(cn.args[0], ast.Name) and cn.args[0].id == "data" for cn in calls)
-    ok = ok and bool(gens) and all(ast.unparse(g.generators[0].iter) in ("enumerate(self.children)", "self.children") and not g.generators[0].ifs for g in gens)
+    dparam = bf.params[1].name if len(bf.params) > 1 else "data"
+    ok = bool(calls) and all(isinstance(cn.args[0], ast.Name) and cn.args[0].id == dparam for cn in calls)
     ok = ok and all(any(k.arg == "source_data" and norm(k.value) == "source_data" for k in cn.keywords) for cn in calls)
+    # the receiver of each call iterates over all of self.children (loop or comprehension, unfiltered, no early exit)
+    iter_ok = bool(calls)
+    for cn in calls:
+        recv = cn.func.value
+        found = False
+        for pnode in [x for x in ast.walk(bf.node) if isinstance(x, (ast.For, ast.GeneratorExp, ast.ListComp))]:
+            gens = [(pnode.target, pnode.iter, [])] if isinstance(pnode, ast.For) else [(g.target, g.iter, g.ifs) for g in pnode.generators]
+            for tgt, it, ifs in gens:
+                if isinstance(recv, ast.Name) and recv.id in [x.id for x in ast.walk(tgt) if isinstance(x, ast.Name)] and any(cn is y for y in ast.walk(pnode)):
+                    found = ast.unparse(it) in ("enumerate(self.children)", "self.children") and not ifs
+                    if isinstance(pnode, ast.For) and any(isinstance(y, (ast.Break, ast.Continue, ast.Return)) for y in ast.walk(pnode)):
+                        found = False
+        iter_ok = iter_ok and found
+    ok = ok and iter_ok
     if ok:
         r.ok()
     else:
